@@ -35,7 +35,7 @@ def arithTy (opt : Bool) (op : BinOp) (t1 t3 : Ty) : Ty :=
   else .mixed
 
 def typeOf (opt : Bool) (lt gt : List Ty) : Expr R → Ty
-  | .lit (.int _) => .int
+  | .lit (.int n) => if n == 0 then .mixed else .int      -- CREATE_NUMBER: the literal 0 is typed TYPE_ANY (it is also the null value)
   | .lit (.real _) => .real
   | .lit (.str _) => .str
   | .lit _ => .mixed
@@ -100,6 +100,13 @@ def isZeroLit : Expr R → Bool
   | .lit (.int 0) => true
   | _ => false
 
+/-- the type code the grammar holds for a static type (`TYPE_*`, regenerated) -/
+def tyCode : Ty → Nat
+  | .int => NV.Gen.C03.typeNumber
+  | .real => NV.Gen.C03.typeReal
+  | .str => NV.Gen.C03.typeString
+  | .mixed => NV.Gen.C03.typeAny
+
 /-- root rewrite of a binary node whose children are already rewritten (the grammar action of `expr0 op expr0`) -/
 def rwBin (F : FloatOps R) (q : Quirks) (lt gt : List Ty) (op : BinOp) (a b : Expr R) : Expr R :=
   let ty := fun e => typeOf q.optimisticTypes lt gt e
@@ -107,31 +114,31 @@ def rwBin (F : FloatOps R) (q : Quirks) (lt gt : List Ty) (op : BinOp) (a b : Ex
   match a, b with
   | .lit x, .lit y =>
     -- `0 + X` is tested before the constant case
-    if op == .add && isZeroLit a && (ty b == .int || (ty b == .real && q.foldAddZeroReal)) then b
-    else if op == .sub && isZeroLit a && (q.zeroMinusNeg || ty b == .int) then
+    if op == .add && (NV.Gen.C03.rwAddZeroL (isZeroLit a) (tyCode (ty b)) || (isZeroLit a && ty b == .real && q.foldAddZeroReal)) then b
+    else if op == .sub && ((isZeroLit a && q.zeroMinusNeg) || NV.Gen.C03.rwSubZeroL (isZeroLit a) (tyCode (ty b))) then
       (match foldUn F .neg y with | some v => .lit v | none => .un .neg b)
     else match foldBin F op x y with
       | some v => .lit v
       | none =>
-        if op == .eq && isZeroLit a && ty b == .int then .un .not b
-        else if op == .eq && isZeroLit b && ty a == .int then .un .not a
+        if op == .eq && NV.Gen.C03.rwEqZeroL (isZeroLit a) (tyCode (ty b)) then .un .not b
+        else if op == .eq && NV.Gen.C03.rwEqZeroR (isZeroLit b) (tyCode (ty a)) then .un .not a
         else dflt
   | _, _ =>
     match op with
     | .add =>
-      if isZeroLit a && (ty b == .int || (ty b == .real && q.foldAddZeroReal)) then b
+      if NV.Gen.C03.rwAddZeroL (isZeroLit a) (tyCode (ty b)) || (isZeroLit a && ty b == .real && q.foldAddZeroReal) then b
       else if isLit a && (match a with | .lit (.int _) | .lit (.real _) => true | _ => false)
               && ty b != .str && ty b != .mixed then .bin .add b a          -- swap: constant to the right
-      else if isZeroLit b && !(isLit a) && (ty a == .int || (ty a == .real && q.foldAddZeroReal)) then a
+      else if !(isLit a) && (NV.Gen.C03.rwAddZeroR (isZeroLit b) (tyCode (ty a)) || (isZeroLit b && ty a == .real && q.foldAddZeroReal)) then a
       else dflt
-    | .sub => if isZeroLit a && (q.zeroMinusNeg || ty b == .int) then .un .neg b else dflt
+    | .sub => if (isZeroLit a && q.zeroMinusNeg) || NV.Gen.C03.rwSubZeroL (isZeroLit a) (tyCode (ty b)) then .un .neg b else dflt
     | .mul =>
       if (match a with | .lit (.int _) | .lit (.real _) => true | _ => false) then .bin .mul b a else dflt
     | .band | .bor | .bxor =>
       if (match a with | .lit (.int _) => true | _ => false) then .bin op b a else dflt
     | .eq =>
-      if isZeroLit a && ty b == .int then .un .not b
-      else if isZeroLit b && ty a == .int then .un .not a
+      if NV.Gen.C03.rwEqZeroL (isZeroLit a) (tyCode (ty b)) then .un .not b
+      else if NV.Gen.C03.rwEqZeroR (isZeroLit b) (tyCode (ty a)) then .un .not a
       else dflt
     | _ => dflt
 
@@ -161,8 +168,8 @@ def rwIdx (a i : Expr R) : Expr R :=
 /-- condition of `if`: `x != 0 --> x` for int-typed x -/
 def rwIfCond (q : Quirks) (lt gt : List Ty) (c : Expr R) : Expr R :=
   match c with
-  | .bin .ne x (.lit (.int 0)) => if typeOf q.optimisticTypes lt gt x == .int then x else c
-  | .bin .ne (.lit (.int 0)) x => if typeOf q.optimisticTypes lt gt x == .int then x else c
+  | .bin .ne x (.lit (.int 0)) => if NV.Gen.C03.rwIfNeZeroR true (tyCode (typeOf q.optimisticTypes lt gt x)) then x else c
+  | .bin .ne (.lit (.int 0)) x => if NV.Gen.C03.rwIfNeZeroL true (tyCode (typeOf q.optimisticTypes lt gt x)) then x else c
   | _ => c
 
 /-- cond_get_exp: `#if` arithmetic in 32-bit `int` -/
